@@ -76,6 +76,9 @@ def run(ctx):
         elif e["ev"] == "liveness":
             sig = {"monitor": "liveness", "why": b["why"], "scenario": e["scenario"]}
             text = "%s: %s (%d of %d keys returned)" % (e["scenario"], b["why"], e["returned"], e["issued"])
+        elif e["ev"] == "atomic":
+            sig = {"monitor": "atomic", "why": b["why"], "scenario": e["scenario"]}
+            text = "%s: %s (%s: expected %s, observed %s)" % (e["scenario"], b["why"], e["what"], e["expected"], e["observed"])
         elif e["ev"] == "unlocked":
             sig = {"monitor": "lock", "why": b["why"], "during": e["during"][:20]}
             text = "%s during %s (held=%s overlap=%s)" % (b["why"], e["during"][:300], e["held"], e["overlap"])
